@@ -299,17 +299,20 @@ def isSpecialScheme (s : Bytes) : Bool :=
     schemes a backslash counts as a slash), or a scheme-relative reference. -/
 def hostQualified (v : Bytes) : Bool :=
   let v := (v.dropWhile isC0OrSpace).filter fun c => c != 9 && c != 10 && c != 13
+  -- `//` (for special schemes and relative references: any run of two or more slashes, a
+  -- backslash counting as a slash) followed by the first byte of a non-empty host
+  let authority (special : Bool) (rest : Bytes) : Bool :=
+    let isSl (c : UInt8) : Bool := c == 47 || (c == 92 && special)
+    match rest with
+    | a :: b :: r =>
+      isSl a && isSl b &&
+      (match (if special then r.dropWhile isSl else r) with
+       | c :: _ => !(c == 47 || c == 92 || c == 63 || c == 35 || c == 58 || c == 64)
+       | [] => false)
+    | _ => false
   match classifyUrl v with
-  | .scheme s =>
-    let isSl (c : UInt8) : Bool := c == 47 || (c == 92 && isSpecialScheme s)
-    match v.drop (s.length + 1) with
-    | a :: b :: _ => isSl a && isSl b
-    | _ => false
-  | .relative =>
-    let isSl (c : UInt8) : Bool := c == 47 || c == 92
-    match v with
-    | a :: b :: _ => isSl a && isSl b
-    | _ => false
+  | .scheme s => authority (isSpecialScheme s) (v.drop (s.length + 1))
+  | .relative => authority true v
 
 def oracleC11 (p : Policy) (out : Bytes) : Bool :=
   (tokenize out).all fun t =>
